@@ -7,6 +7,7 @@
 package effects
 
 import (
+	"os"
 	"fmt"
 	"go/token"
 	"go/types"
@@ -34,6 +35,10 @@ type Root struct {
 	Kind  RootKind
 	Index int       // Param / Free index
 	Val   ssa.Value // the Alloc / Parameter / FreeVar / Global
+	// Deep: the address was reached by loading a reference out of the root cell and addressing through it
+	// ((*cell).f, (*cell)[i]); for a captured variable this means the write lands in whatever the variable
+	// refers to, not in the variable itself.
+	Deep bool
 }
 
 func (r Root) String() string {
@@ -54,16 +59,56 @@ func (r Root) String() string {
 }
 
 // RootOf follows an address / reference value to its root.
-func RootOf(v ssa.Value) Root { return rootOf(v, 0, map[*ssa.Phi]bool{}) }
+func RootOf(v ssa.Value) Root { return rootOf(v, 0, map[ssa.Value]bool{}) }
 
-func rootOf(v ssa.Value, depth int, seen map[*ssa.Phi]bool) Root {
+// CellContentRoot is the root of what the variable cell (an Alloc or a FreeVar,
+// as found among closure bindings) refers to.
+func CellContentRoot(cell ssa.Value) Root {
+	switch x := cell.(type) {
+	case *ssa.Alloc:
+		return allocContent(x, 0, map[ssa.Value]bool{})
+	case *ssa.FreeVar:
+		r := RootOf(x)
+		r.Deep = true
+		return r
+	}
+	return RootOf(cell)
+}
+
+// allocContent: the worst root among the values stored into a local cell.
+func allocContent(al *ssa.Alloc, depth int, seen map[ssa.Value]bool) Root {
+	worst := Root{Kind: Local, Val: al}
+	if al.Referrers() == nil || seen[al] {
+		return worst
+	}
+	seen[al] = true
+	for _, ref := range *al.Referrers() {
+		st, ok := ref.(*ssa.Store)
+		if !ok || st.Addr != ssa.Value(al) {
+			continue
+		}
+		if r := rootOf(st.Val, depth+1, seen); r.Kind > worst.Kind {
+			worst = r
+		}
+	}
+	return worst
+}
+
+func rootOf(v ssa.Value, depth int, seen map[ssa.Value]bool) Root {
+	deep := false
+	ret := func(r Root) Root {
+		if deep {
+			r.Deep = true
+		}
+		return r
+	}
 	for depth < 64 {
 		depth++
 		switch x := v.(type) {
 		case *ssa.Global:
-			return Root{Kind: Global, Val: x}
+			return ret(Root{Kind: Global, Val: x})
 		case *ssa.Alloc:
-			return Root{Kind: Local, Val: x}
+			return ret(Root{Kind: Local, Val: x})
 		case *ssa.MakeMap, *ssa.MakeSlice, *ssa.MakeChan, *ssa.MakeClosure, *ssa.Const, *ssa.Function, *ssa.Builtin:
 			return Root{Kind: Local, Val: x}
 		case *ssa.MakeInterface:
@@ -80,7 +125,7 @@ func rootOf(v ssa.Value, depth int, seen map[*ssa.Phi]bool) Root {
 			fn := x.Parent()
 			for i, p := range fn.FreeVars {
 				if p == x {
-					return Root{Kind: Free, Index: i, Val: x}
+					return ret(Root{Kind: Free, Index: i, Val: x})
 				}
 			}
 			return Root{Kind: Unknown, Val: x}
@@ -98,6 +143,12 @@ func rootOf(v ssa.Value, depth int, seen map[*ssa.Phi]bool) Root {
 			if x.Op != token.MUL {
 				return Root{Kind: Local, Val: x}
 			}
+			// a reference loaded out of a local variable cell and addressed through: the write lands in what
+			// the variable refers to
+			if al, ok := x.X.(*ssa.Alloc); ok && isRefType(x.Type()) {
+				return allocContent(al, depth, seen)
+			}
+			deep = true
 			v = x.X
 		case *ssa.ChangeType:
 			v = x.X
@@ -135,6 +186,9 @@ func rootOf(v ssa.Value, depth int, seen map[*ssa.Phi]bool) Root {
 		case *ssa.BinOp:
 			return Root{Kind: Local, Val: x}
 		default:
+			if os.Getenv("OGENVERIF_EFFDEBUG") != "" {
+				fmt.Fprintf(os.Stderr, "effects: unknown root %T %v in %v\n", v, v, v.Parent())
+			}
 			return Root{Kind: Unknown, Val: v}
 		}
 	}
@@ -144,6 +198,7 @@ func rootOf(v ssa.Value, depth int, seen map[*ssa.Phi]bool) Root {
 // Effect is one possible write outside the function's own allocations.
 type Effect struct {
 	Root  RootKind
+	Deep  bool   // Free: through the reference held by the captured variable, not the variable itself
 	Index int    // parameter index for Param
 	Name  string // global name for Global
 	Kind  string // store | mapinsert | ext:<callee> | unknown:<what>
@@ -152,7 +207,7 @@ type Effect struct {
 }
 
 func (e Effect) key() string {
-	return fmt.Sprintf("%d/%d/%s/%s", e.Root, e.Index, e.Name, e.Kind)
+	return fmt.Sprintf("%d/%d/%s/%s/%v", e.Root, e.Index, e.Name, e.Kind, e.Deep)
 }
 
 func (e Effect) String() string {
@@ -333,6 +388,22 @@ func Analyze(prog *core.Prog, inScope func(*ssa.Function) bool) *Analysis {
 			}
 		}
 	}
+	if pat := os.Getenv("OGENVERIF_EFFDUMP"); pat != "" {
+		for _, f := range fns {
+			if !strings.Contains(core.FuncName(f), pat) {
+				continue
+			}
+			var keys []string
+			for k := range a.Sum[f].Effects {
+				keys = append(keys, k)
+			}
+			sort.Strings(keys)
+			for _, k := range keys {
+				e := a.Sum[f].Effects[k]
+				fmt.Fprintf(os.Stderr, "EFFDUMP %s: %s at %v\n", core.FuncName(f), e.String(), prog.SSA.Fset.Position(e.Pos))
+			}
+		}
+	}
 	return a
 }
 
@@ -361,7 +432,10 @@ func (a *Analysis) effectFor(f *ssa.Function, r Root, kind string, pos token.Pos
 		}
 		return Effect{Root: Global, Name: name, Kind: kind, Via: via, Pos: pos}, true
 	case Free:
-		return Effect{Root: Free, Index: r.Index, Kind: kind, Via: via, Pos: pos}, true
+		return Effect{Root: Free, Index: r.Index, Kind: kind, Via: via, Pos: pos, Deep: r.Deep}, true
+	}
+	if os.Getenv("OGENVERIF_EFFDEBUG") != "" {
+		fmt.Fprintf(os.Stderr, "effects: unknown-root effect %s in %s at %v: root kind=%d deep=%v val %T %v\n", kind, via, f.Prog.Fset.Position(pos), r.Kind, r.Deep, r.Val, r.Val)
 	}
 	return Effect{Root: Unknown, Kind: kind, Via: via, Pos: pos}, true
 }
@@ -372,6 +446,16 @@ func (a *Analysis) effectFor(f *ssa.Function, r Root, kind string, pos token.Pos
 type CallEffect struct {
 	Effect Effect
 	On     ssa.Value
+}
+
+// OnRoot is the caller-side root the effect applies to: for an effect through
+// the reference held by a captured variable it is the root of what the bound
+// cell refers to.
+func (ce CallEffect) OnRoot() Root {
+	if ce.Effect.Root == Free && ce.Effect.Deep {
+		return CellContentRoot(ce.On)
+	}
+	return RootOf(ce.On)
 }
 
 func (a *Analysis) CalleeEffects(call ssa.CallInstruction) []CallEffect {
@@ -464,6 +548,18 @@ func (a *Analysis) CalleeEffects(call ssa.CallInstruction) []CallEffect {
 			out = append(out, CallEffect{Effect{Root: Unknown, Kind: "store", Via: core.FuncName(call.Parent()), Pos: call.Pos()}, args[0]})
 		case "delete":
 			out = append(out, CallEffect{Effect{Root: Unknown, Kind: "mapinsert", Via: core.FuncName(call.Parent()), Pos: call.Pos()}, args[0]})
+		case "append":
+			// append writes into the spare capacity of its first argument's backing array (unless the capacity
+			// was clipped with a full slice expression)
+			if len(args) == 2 {
+				if sl, ok := args[0].(*ssa.Slice); ok && sl.Max != nil {
+					break
+				}
+				if c, ok := args[0].(*ssa.Const); ok && c.IsNil() {
+					break
+				}
+				out = append(out, CallEffect{Effect{Root: Unknown, Kind: "append", Via: core.FuncName(call.Parent()), Pos: call.Pos()}, args[0]})
+			}
 		}
 		return out
 	}
@@ -520,7 +616,7 @@ func (a *Analysis) CalleeEffects(call ssa.CallInstruction) []CallEffect {
 						_ = bindings
 						// where was the callback created? a captured variable that is a local of the creating
 						// function is private to that function's activation
-						if a.freeIsCreatorLocal(g, e.Index) {
+						if a.freeIsCreatorLocal(g, e.Index, e.Deep) {
 							continue
 						}
 						out = append(out, CallEffect{Effect{Root: Unknown, Kind: e.Kind, Via: e.Via + " (captured variable of a callback)", Pos: e.Pos}, nil})
@@ -608,10 +704,75 @@ func isRefType(t types.Type) bool {
 	return false
 }
 
+// balancedPairs: a push onto dynamically scoped state whose pop is deferred
+// in the same function leaves that state as it found it when the function
+// returns; neither call is an effect of the function. Reviewed: both pairs are
+// "currently being visited" sets used for cycle detection.
+var balancedPairs = map[string]string{
+	"(*ogen/jsonpointer.ResolveCtx).AddKey": "(*ogen/jsonpointer.ResolveCtx).Delete", // resolve stack: pushed after the lookup, popped by defer in both resolvers
+	"(*ogen/gen/ir.walkpath).add":           "(*ogen/gen/ir.walkpath).delete",        // recursion walk path: `path.add(t); defer path.delete(t)`
+}
+
+func callsNamed(f *ssa.Function, name string, deferredOnly bool) bool {
+	for _, b := range f.Blocks {
+		for _, in := range b.Instrs {
+			call, ok := in.(ssa.CallInstruction)
+			if !ok {
+				continue
+			}
+			_, isDefer := in.(*ssa.Defer)
+			if g := call.Common().StaticCallee(); g != nil {
+				if core.FuncName(g) == name && (isDefer || !deferredOnly) {
+					return true
+				}
+				// defer func() { x.pop() }()
+				if isDefer && g.Parent() == f && callsNamed(g, name, false) {
+					return true
+				}
+			}
+		}
+	}
+	return false
+}
+
+// balanced reports whether the call is one half of a push / deferred-pop pair within f.
+func balanced(f *ssa.Function, call ssa.CallInstruction) bool {
+	g := call.Common().StaticCallee()
+	if g == nil {
+		return false
+	}
+	name := core.FuncName(g)
+	if pop, ok := balancedPairs[name]; ok {
+		return callsNamed(f, pop, true)
+	}
+	for push, pop := range balancedPairs {
+		if name != pop {
+			continue
+		}
+		if _, isDefer := call.(*ssa.Defer); isDefer {
+			return callsNamed(f, push, false)
+		}
+		// inside a closure the parent defers
+		if p := f.Parent(); p != nil {
+			for _, b := range p.Blocks {
+				for _, in := range b.Instrs {
+					if d, ok := in.(*ssa.Defer); ok && d.Common().StaticCallee() == f {
+						return callsNamed(p, push, false)
+					}
+				}
+			}
+		}
+	}
+	return false
+}
+
 func (a *Analysis) step(f *ssa.Function) bool {
 	changed := false
 	for _, b := range f.Blocks {
 		for _, in := range b.Instrs {
+			if call, ok := in.(ssa.CallInstruction); ok && balanced(f, call) {
+				continue
+			}
 			switch x := in.(type) {
 			case *ssa.Store:
 				if e, ok := a.effectFor(f, RootOf(x.Addr), "store", x.Pos()); ok {
@@ -634,7 +795,7 @@ func (a *Analysis) step(f *ssa.Function) bool {
 					var e Effect
 					ok := true
 					if ce.On != nil {
-						e, ok = a.effectFor(f, RootOf(ce.On), ce.Effect.Kind, x.Pos())
+						e, ok = a.effectFor(f, ce.OnRoot(), ce.Effect.Kind, x.Pos())
 						e.Via = ce.Effect.Via
 					} else {
 						e = ce.Effect
@@ -651,7 +812,7 @@ func (a *Analysis) step(f *ssa.Function) bool {
 
 // freeIsCreatorLocal: at every MakeClosure site of g the idx-th binding is
 // rooted in a local allocation of the creating function.
-func (a *Analysis) freeIsCreatorLocal(g *ssa.Function, idx int) bool {
+func (a *Analysis) freeIsCreatorLocal(g *ssa.Function, idx int, deep bool) bool {
 	p := g.Parent()
 	if p == nil {
 		return false
@@ -664,7 +825,11 @@ func (a *Analysis) freeIsCreatorLocal(g *ssa.Function, idx int) bool {
 				continue
 			}
 			n++
-			if r := RootOf(mc.Bindings[idx]); r.Kind != Local {
+			r := RootOf(mc.Bindings[idx])
+			if deep {
+				r = CellContentRoot(mc.Bindings[idx])
+			}
+			if r.Kind != Local {
 				return false
 			}
 		}
